@@ -193,111 +193,320 @@ fn tiny_ising(rng: &mut SplitMix64, idx: usize, hsign: f64) -> IsingSpec {
     IsingSpec { edges, gamma, h: hsign * [0.5, 0.75][rng.below(2) as usize], nvars: n, cutoff: [1, 2, 6][rng.below(3) as usize], state, hb: false }
 }
 
-pub fn run(args: &Args) -> Value {
-    let mut rng = SplitMix64::new(args.seed ^ 0x7E41);
-    let nsteps = if args.thorough { 400_000 } else { 40_000 };
+struct Outcome {
+    failures: Vec<Value>,
+    sample: Option<Value>,
+    /// a panic or a bookkeeping failure: not statistical, reported without a confirmation run
+    hard: bool,
+}
+
+/// A statistical failure is reported only if a second, four times longer run from another RNG seed
+/// fails as well (the binned error estimate has heavy tails; this keeps the false-alarm rate negligible).
+fn confirmed<F: Fn(usize, u64) -> Outcome>(f: F, nsteps: usize) -> Outcome {
+    let o = f(nsteps, 0);
+    if o.failures.is_empty() || o.hard {
+        return o;
+    }
+    let o2 = f(4 * nsteps, 0x5EED_5EED);
+    if o2.failures.is_empty() {
+        Outcome { failures: vec![], sample: o2.sample, hard: false }
+    } else {
+        o2
+    }
+}
+
+fn mk_fail(prop: &str, key: Option<&str>, what: String, ctx: Value) -> Value {
+    let mut f = json!({"prop": prop, "what": what, "context": ctx});
+    if let Some(k) = key {
+        f["key"] = json!(k);
+    }
+    f
+}
+
+struct IsingJob {
+    prop: &'static str,
+    spec: IsingSpec,
+    beta: f64,
+    rvb: u8,
+    seed: u64,
+}
+
+fn run_ising_job(j: &IsingJob, nsteps: usize, seed_xor: u64) -> Outcome {
     let warm = nsteps / 10;
-    let mut oracle_failures: Vec<Value> = vec![];
-    let mut samples = vec![];
-    let mut n_runs = 0usize;
-    let mut fail = |prop: &str, key: Option<&str>, what: String, ctx: Value, v: &mut Vec<Value>| {
-        let mut f = json!({"prop": prop, "what": what, "context": ctx});
-        if let Some(k) = key {
-            f["key"] = json!(k);
+    let seed = j.seed ^ seed_xor;
+    let mut hard = false;
+    let spec = &j.spec;
+    let (prop, beta, rvb) = (j.prop, j.beta, j.rvb);
+    let mut failures = vec![];
+    let ex = exact_from_h(&ising_h(spec), spec.nvars, beta);
+    let ctx = json!({"edges": spec.edges, "gamma": spec.gamma, "h": spec.h, "beta": beta, "initial_cutoff": spec.cutoff, "initial_state": spec.state,
+        "heatbath": spec.hb, "rng_seed": seed, "steps": nsteps,
+        "rvb": match rvb { 0 => "off", 1 => "set_run_rvb", _ => "explicit single_rvb_sweep(2) after every step" }});
+    let n = spec.nvars;
+    let nb = spec.nbonds();
+    let mut drift: Option<String> = None;
+    let r = catch_unwind(AssertUnwindSafe(|| {
+        let mut g = spec.build(TapeRng::new(seed));
+        g.rng_logging_off();
+        if rvb == 1 {
+            g.set_run_rvb(true);
         }
-        v.push(f);
-    };
-    // ---------------- Ising sampler: default pipeline (C01), heat bath (C02), RVB (C03)
-    let variants: Vec<(&str, bool, u8)> = vec![("C01", false, 0), ("C02", true, 0), ("C02", true, 1), ("C03", false, 1), ("C03", false, 2), ("C03", true, 2)];
-    for (vi, (prop, hb, rvb)) in variants.iter().enumerate() {
-        for (ii, hsign) in [0.0, 1.0, -1.0].iter().enumerate() {
-            let mut spec = tiny_ising(&mut rng, vi + ii, *hsign);
-            spec.hb = *hb;
-            let beta = [0.5, 1.0][rng.below(2) as usize];
-            let ex = exact_from_h(&ising_h(&spec), spec.nvars, beta);
-            let ctx = json!({"edges": spec.edges, "gamma": spec.gamma, "h": spec.h, "beta": beta, "initial_cutoff": spec.cutoff,
-                "heatbath": hb, "rvb": match rvb { 0 => "off", 1 => "set_run_rvb", _ => "explicit single_rvb_sweep between steps" }});
-            let n = spec.nvars;
-            let nb = spec.nbonds();
-            let r = catch_unwind(AssertUnwindSafe(|| {
-                let mut g = spec.build(TapeRng::new(rng.next()));
-                g.rng_logging_off();
-                if *rvb == 1 {
-                    g.set_run_rvb(true);
-                }
-                let mut st = Stats::new(1 + n + n * n + nb, nsteps);
-                for t in 0..(warm + nsteps) {
-                    g.timestep(beta);
-                    if *rvb == 2 {
-                        g.single_rvb_sweep(Some(2));
-                    }
-                    if t >= warm {
-                        let s = g.clone_state();
-                        let sp = |i: usize| if s[i] { 1.0 } else { -1.0 };
-                        let mut x = vec![g.get_energy_for_average_n(g.get_n() as f64, beta)];
-                        for i in 0..n {
-                            x.push(sp(i));
-                        }
-                        for i in 0..n {
-                            for j in 0..n {
-                                x.push(sp(i) * sp(j));
-                            }
-                        }
-                        for b in 0..nb {
-                            x.push(g.get_bond_count(b) as f64);
-                        }
-                        st.add(&x);
+        let mut st = Stats::new(1 + n + n * n + nb, nsteps);
+        let mut drift_seen = false;
+        for t in 0..(warm + nsteps) {
+            g.timestep(beta);
+            if rvb == 2 {
+                g.single_rvb_sweep(Some(2));
+            }
+            if !drift_seen && t % 16 == 0 {
+                let (sl, _, _) = snapshot_ising(&g);
+                for b in 0..nb {
+                    let cnt = sl.iter().flatten().filter(|o| o.bond == b).count();
+                    if g.get_bond_count(b) != cnt {
+                        drift_seen = true;
+                        drift = Some(format!("step {}: get_bond_count({}) = {} but {} operators of that bond are stored", t, b, g.get_bond_count(b), cnt));
+                        break;
                     }
                 }
-                st.mean_err()
-            }));
-            n_runs += 1;
-            match r {
-                Err(_) => fail(prop, None, "sampler panicked during a long run".into(), ctx.clone(), &mut oracle_failures),
-                Ok(me) => {
-                    let mut bad = vec![];
-                    if let Some(m) = judge("energy", me[0].0, me[0].1, ex.energy, 0.02) {
+            }
+            if t >= warm {
+                let s = g.clone_state();
+                let sp = |i: usize| if s[i] { 1.0 } else { -1.0 };
+                let mut x = vec![g.get_energy_for_average_n(g.get_n() as f64, beta)];
+                for i in 0..n {
+                    x.push(sp(i));
+                }
+                for i in 0..n {
+                    for j in 0..n {
+                        x.push(sp(i) * sp(j));
+                    }
+                }
+                for b in 0..nb {
+                    x.push(g.get_bond_count(b) as f64);
+                }
+                st.add(&x);
+            }
+        }
+        st.mean_err()
+    }));
+    if let Some(dmsg) = &drift {
+        hard = true;
+        failures.push(mk_fail("C11", None, format!("per-bond operator count disagrees with the contents during a run: {}", dmsg), ctx.clone()));
+    }
+    let mut sample = None;
+    match r {
+        Err(_) => {
+            hard = true;
+            failures.push(mk_fail(prop, None, format!("sampler panicked during a long run ({})", drift.clone().unwrap_or_default()), ctx.clone()))
+        }
+        Ok(me) => {
+            let mut bad = vec![];
+            if let Some(m) = judge("energy", me[0].0, me[0].1, ex.energy, 0.02) {
+                bad.push(m);
+            }
+            for i in 0..n {
+                if let Some(m) = judge(&format!("<s_{}>", i), me[1 + i].0, me[1 + i].1, ex.mag[i], 0.02) {
+                    bad.push(m);
+                }
+            }
+            for i in 0..n {
+                for j in (i + 1)..n {
+                    if let Some(m) = judge(&format!("<s_{} s_{}>", i, j), me[1 + n + i * n + j].0, me[1 + n + i * n + j].1, ex.zz[i][j], 0.02) {
                         bad.push(m);
                     }
-                    for i in 0..n {
-                        if let Some(m) = judge(&format!("<s_{}>", i), me[1 + i].0, me[1 + i].1, ex.mag[i], 0.02) {
+                }
+            }
+            // mean operator count per bond = beta * <offset_b - H_b>
+            for b in 0..nb {
+                let ne = spec.edges.len();
+                let want = if b < ne {
+                    let ((x, y), jj) = spec.edges[b];
+                    beta * (jj.abs() - jj * ex.zz[x][y])
+                } else if b < ne + n {
+                    beta * (spec.gamma + spec.gamma * ex.sx[b - ne])
+                } else {
+                    beta * (spec.h.abs() + spec.h * ex.mag[b - ne - n])
+                };
+                if let Some(m) = judge(&format!("<n_bond{}>", b), me[1 + n + n * n + b].0, me[1 + n + n * n + b].1, want, 0.03) {
+                    bad.push(m);
+                }
+            }
+            if !bad.is_empty() {
+                failures.push(mk_fail(prop, None, format!("does not converge to the exact thermal values: {}", bad.join("; ")), ctx.clone()));
+            }
+            sample = Some(json!({"property": prop, "context": ctx, "energy": [me[0].0, me[0].1, ex.energy]}));
+        }
+    }
+    Outcome { failures, sample, hard }
+}
+
+struct GenericJob {
+    prop: &'static str,
+    key: Option<&'static str>,
+    spec: QmcSpec,
+    beta: f64,
+    seed: u64,
+}
+
+fn run_generic_job(j: &GenericJob, nsteps: usize, seed_xor: u64) -> Outcome {
+    let warm = nsteps / 10;
+    let seed = j.seed ^ seed_xor;
+    let mut hard = false;
+    let spec = &j.spec;
+    let beta = j.beta;
+    let ex = exact_from_h(&generic_h(spec), spec.nvars, beta);
+    let n = spec.nvars;
+    let ctx = json!({"sampler": "generic", "bonds": spec.bonds.iter().map(|b| json!([b.kind, b.mat, b.vars])).collect::<Vec<_>>(),
+        "loops": spec.loops, "heatbath": spec.hb, "beta": beta, "initial_state": spec.state, "rng_seed": seed, "steps": nsteps});
+    let mut failures = vec![];
+    let r = catch_unwind(AssertUnwindSafe(|| {
+        let mut q = spec.build(TapeRng::new(seed)).unwrap();
+        let mut st = Stats::new(1 + n, nsteps);
+        for t in 0..(warm + nsteps) {
+            q.timestep(beta);
+            if t >= warm {
+                let s = q.clone_state();
+                let mut x = vec![q.get_energy_for_average_n(QmcStepper::get_n(&q) as f64, beta)];
+                for i in 0..n {
+                    x.push(if s[i] { 1.0 } else { -1.0 });
+                }
+                st.add(&x);
+            }
+        }
+        st.mean_err()
+    }));
+    let mut sample = None;
+    match r {
+        Err(_) => {
+            hard = true;
+            failures.push(mk_fail(j.prop, j.key, "generic sampler panicked during a long run".into(), ctx))
+        }
+        Ok(me) => {
+            let mut bad = vec![];
+            if let Some(m) = judge("energy", me[0].0, me[0].1, ex.energy, 0.02) {
+                bad.push(m);
+            }
+            for i in 0..n {
+                if let Some(m) = judge(&format!("<s_{}>", i), me[1 + i].0, me[1 + i].1, ex.mag[i], 0.02) {
+                    bad.push(m);
+                }
+            }
+            if !bad.is_empty() {
+                failures.push(mk_fail(j.prop, j.key, format!("generic sampler does not converge to the thermal state of its matrices: {}", bad.join("; ")), ctx));
+            } else {
+                sample = Some(json!({"property": j.prop, "context": ctx, "energy": [me[0].0, me[0].1, ex.energy]}));
+            }
+        }
+    }
+    Outcome { failures, sample, hard }
+}
+
+struct LadderJob {
+    li: usize,
+    par: bool,
+    specs: Vec<IsingSpec>,
+    betas: Vec<f64>,
+    seeds: Vec<u64>,
+}
+
+fn run_ladder_job(j: &LadderJob, nsteps: usize, seed_xor: u64) -> Outcome {
+    let warm = nsteps / 10;
+    let mut hard = false;
+    let seeds: Vec<u64> = j.seeds.iter().map(|s| s ^ seed_xor).collect();
+    let (li, par, specs, betas) = (j.li, j.par, &j.specs, &j.betas);
+    let base = &specs[0];
+    let ctx = json!({"driver": if par {"rayon"} else {"serial"}, "betas": betas, "edges": specs.iter().map(|s| s.edges.clone()).collect::<Vec<_>>(),
+        "gamma": base.gamma, "h": specs.iter().map(|s| s.h).collect::<Vec<_>>(), "swap_period": 1 + li % 3, "sampling_period": 1 + (li % 2), "rng_seeds": seeds, "steps": nsteps});
+    let nrep = specs.len();
+    let n = base.nvars;
+    let (sw, sa) = (1 + li % 3, 1 + (li % 2));
+    let mut failures = vec![];
+    let r = catch_unwind(AssertUnwindSafe(|| {
+        let mut tc: crate::c10::TC = TemperingContainer::new(TapeRng::new(seeds[0]));
+        for (k, (s, b)) in specs.iter().zip(betas.iter()).enumerate() {
+            let mut g = s.build(TapeRng::new(seeds[1 + k]));
+            g.rng_logging_off();
+            tc.add_qmc_stepper(g, *b).unwrap();
+        }
+        tc.rng_mut().logging = false;
+        tc.timesteps(warm);
+        let mut stats: Vec<Stats> = (0..nrep).map(|_| Stats::new(1 + n * n, nsteps / 12)).collect();
+        // chunks of 12 steps through the measuring driver
+        let mut t = 0;
+        while t < nsteps {
+            let res = if par { tc.parallel_timesteps_sample(12, sw, sa) } else { tc.timesteps_sample(12, sw, sa) };
+            for (i, (states, e)) in res.iter().enumerate() {
+                let mut x = vec![*e];
+                let mut zz = vec![0.0; n * n];
+                for s in states {
+                    for a in 0..n {
+                        for b in 0..n {
+                            zz[a * n + b] += if s[a] == s[b] { 1.0 } else { -1.0 };
+                        }
+                    }
+                }
+                x.extend(zz.iter().map(|v| v / states.len() as f64));
+                stats[i].add(&x);
+            }
+            t += 12;
+        }
+        stats.iter().map(|s| s.mean_err()).collect::<Vec<_>>()
+    }));
+    let mut sample = None;
+    match r {
+        Err(_) => {
+            hard = true;
+            failures.push(mk_fail("C05", None, "tempering run panicked".into(), ctx))
+        }
+        Ok(all) => {
+            let mut bad = vec![];
+            for (i, me) in all.iter().enumerate() {
+                let ex = exact_from_h(&ising_h(&specs[i]), n, betas[i]);
+                if let Some(m) = judge(&format!("rung {} energy", i), me[0].0, me[0].1, ex.energy, 0.03) {
+                    bad.push(m);
+                }
+                for a in 0..n {
+                    for b in (a + 1)..n {
+                        if let Some(m) = judge(&format!("rung {} <s_{} s_{}>", i, a, b), me[1 + a * n + b].0, me[1 + a * n + b].1, ex.zz[a][b], 0.03) {
                             bad.push(m);
                         }
                     }
-                    for i in 0..n {
-                        for j in (i + 1)..n {
-                            if let Some(m) = judge(&format!("<s_{} s_{}>", i, j), me[1 + n + i * n + j].0, me[1 + n + i * n + j].1, ex.zz[i][j], 0.02) {
-                                bad.push(m);
-                            }
-                        }
-                    }
-                    // mean operator count per bond = beta * <offset_b - H_b>
-                    for b in 0..nb {
-                        let ne = spec.edges.len();
-                        let want = if b < ne {
-                            let ((x, y), j) = spec.edges[b];
-                            beta * (j.abs() - j * ex.zz[x][y])
-                        } else if b < ne + n {
-                            beta * (spec.gamma + spec.gamma * ex.sx[b - ne])
-                        } else {
-                            beta * (spec.h.abs() + spec.h * ex.mag[b - ne - n])
-                        };
-                        if let Some(m) = judge(&format!("<n_bond{}>", b), me[1 + n + n * n + b].0, me[1 + n + n * n + b].1, want, 0.03) {
-                            bad.push(m);
-                        }
-                    }
-                    if !bad.is_empty() {
-                        fail(prop, None, format!("does not converge to the exact thermal values: {}", bad.join("; ")), ctx.clone(), &mut oracle_failures);
-                    }
-                    if samples.len() < 8 {
-                        samples.push(json!({"property": prop, "context": ctx, "energy": [me[0].0, me[0].1, ex.energy]}));
-                    }
+                }
+            }
+            if !bad.is_empty() {
+                failures.push(mk_fail("C05", None, format!("a ladder position does not sample its own thermal distribution: {}", bad.join("; ")), ctx));
+            } else {
+                sample = Some(json!({"property": "C05", "context": ctx, "rung0_energy": [all[0][0].0, all[0][0].1]}));
+            }
+        }
+    }
+    Outcome { failures, sample, hard }
+}
+
+pub fn run(args: &Args) -> Value {
+    use rayon::prelude::*;
+    let mut rng = SplitMix64::new(args.seed ^ 0x7E41);
+    let nsteps = if args.thorough { 480_000 } else { 48_000 };
+    // `--only Cxx` restricts the runs to those tagged with that property
+    let only: Option<String> = args.extra.iter().position(|a| a == "--only").and_then(|i| args.extra.get(i + 1).cloned());
+    let wanted = |tags: &str| only.as_ref().map_or(true, |o| tags.split(',').any(|t| t == o));
+    // ---------------- Ising sampler: default pipeline (C01), heat bath (C02), RVB (C03)
+    let variants: Vec<(&'static str, bool, u8)> = vec![("C01", false, 0), ("C02", true, 0), ("C02", true, 1), ("C03", false, 1), ("C03", false, 2), ("C03", true, 2)];
+    let mut ising_jobs = vec![];
+    for (prop, hb, rvb) in variants.iter() {
+        for gi in 0..4usize {
+            for hsign in [0.0, 1.0, -1.0] {
+                let mut spec = tiny_ising(&mut rng, gi, hsign);
+                spec.hb = *hb;
+                let beta = [0.5, 1.0][rng.below(2) as usize];
+                let seed = rng.next();
+                if wanted(prop) {
+                    ising_jobs.push(IsingJob { prop, spec, beta, rvb: *rvb, seed });
                 }
             }
         }
     }
     // ---------------- generic sampler (C04; with heat bath also C02)
-    let d = 0.25;
     let exch = |vs: Vec<usize>, a: f64, b: f64, x: f64| {
         let mut m = vec![0.0; 16];
         m[0] = a;
@@ -308,140 +517,77 @@ pub fn run(args: &Args) -> Value {
         m[9] = x;
         BondSpec { kind: 1, mat: m, vars: vs }
     };
-    let generic: Vec<(&str, Option<&str>, QmcSpec)> = vec![
+    let cst = |v: usize, g: f64| BondSpec { kind: 0, mat: vec![g; 4], vars: vec![v] };
+    let generic: Vec<(&'static str, Option<&'static str>, QmcSpec)> = vec![
         ("C04", None, QmcSpec { nvars: 2, bonds: vec![exch(vec![0, 1], 1.0, 0.5, 0.75)], state: vec![true, false], loops: true, hb: false }),
         ("C04", None, QmcSpec { nvars: 3, bonds: vec![exch(vec![0, 1], 0.5, 1.0, 0.5), exch(vec![1, 2], 1.0, 0.25, 1.0),
             BondSpec { kind: 3, mat: vec![0.5, 1.5], vars: vec![2] }], state: vec![true, false, true], loops: true, hb: false }),
-        ("C04", None, QmcSpec { nvars: 3, bonds: vec![BondSpec { kind: 0, mat: vec![1.0; 4], vars: vec![0] }, BondSpec { kind: 0, mat: vec![0.5; 4], vars: vec![1] },
-            BondSpec { kind: 0, mat: vec![0.75; 4], vars: vec![2] }, BondSpec { kind: 3, mat: vec![1.0, 0.25, 0.25, 1.0], vars: vec![0, 1] },
+        ("C04", None, QmcSpec { nvars: 3, bonds: vec![cst(0, 1.0), cst(1, 0.5), cst(2, 0.75), BondSpec { kind: 3, mat: vec![1.0, 0.25, 0.25, 1.0], vars: vec![0, 1] },
             BondSpec { kind: 2, mat: vec![0.5, 1.5, 1.0, 2.0, 2.0, 1.0, 1.5, 0.5], vars: vec![0, 1, 2] }], state: vec![false, false, true], loops: false, hb: false }),
-        ("C02", None, QmcSpec { nvars: 3, bonds: vec![exch(vec![0, 1], 0.5, 1.0, 0.5), exch(vec![1, 2], 1.0, 0.25, 1.0), exch(vec![0, 2], 0.25, 0.5, 0.75),
+        // the same symmetric set with heat bath (cluster updates + weighted bond choice)
+        ("C02,C04", None, QmcSpec { nvars: 3, bonds: vec![cst(0, 1.0), cst(1, 0.5), cst(2, 0.75), BondSpec { kind: 3, mat: vec![1.0, 0.25, 0.25, 1.0], vars: vec![0, 1] },
+            BondSpec { kind: 2, mat: vec![0.5, 1.5, 1.0, 2.0, 2.0, 1.0, 1.5, 0.5], vars: vec![0, 1, 2] }], state: vec![true, false, true], loops: false, hb: true }),
+        ("C02,C04", None, QmcSpec { nvars: 3, bonds: vec![exch(vec![0, 1], 0.5, 1.0, 0.5), exch(vec![1, 2], 1.0, 0.25, 1.0), exch(vec![0, 2], 0.25, 0.5, 0.75),
             BondSpec { kind: 2, mat: vec![0.25, 0.5, 0.5, 0.75, 0.5, 0.25, 1.0, 2.5], vars: vec![0, 1, 2] }], state: vec![true, true, false], loops: true, hb: true }),
+        // mixed arities 1 + 2 + 3 with loops, Metropolis
+        ("C04", None, QmcSpec { nvars: 3, bonds: vec![exch(vec![0, 1], 0.5, 1.0, 0.5), exch(vec![1, 2], 1.0, 0.25, 1.0), exch(vec![0, 2], 0.25, 0.5, 0.75),
+            BondSpec { kind: 3, mat: vec![0.75, 0.25], vars: vec![0] },
+            BondSpec { kind: 2, mat: vec![0.25, 0.5, 0.5, 0.75, 0.5, 0.25, 1.0, 2.5], vars: vec![0, 1, 2] }], state: vec![false, true, false], loops: true, hb: false }),
         ("C04", Some("odd-parity"), QmcSpec { nvars: 2, bonds: vec![BondSpec { kind: 0, mat: vec![2.0, 1.0, 1.0, 0.5], vars: vec![0] },
             BondSpec { kind: 0, mat: vec![2.0, 1.0, 1.0, 0.5], vars: vec![1] }, BondSpec { kind: 3, mat: vec![1.0, 0.0, 0.0, 1.0], vars: vec![0, 1] }],
             state: vec![true, false], loops: true, hb: false }),
     ];
-    let _ = d;
+    let mut generic_jobs = vec![];
     for (prop, key, spec) in generic {
-        let beta = 1.0;
-        let ex = exact_from_h(&generic_h(&spec), spec.nvars, beta);
-        let n = spec.nvars;
-        let ctx = json!({"sampler": "generic", "bonds": spec.bonds.iter().map(|b| json!([b.kind, b.mat, b.vars])).collect::<Vec<_>>(),
-            "loops": spec.loops, "heatbath": spec.hb, "beta": beta});
-        let r = catch_unwind(AssertUnwindSafe(|| {
-            let mut q = spec.build(TapeRng::new(rng.next())).unwrap();
-            let mut st = Stats::new(1 + n, nsteps);
-            for t in 0..(warm + nsteps) {
-                q.timestep(beta);
-                if t >= warm {
-                    let s = q.clone_state();
-                    let mut x = vec![q.get_energy_for_average_n(QmcStepper::get_n(&q) as f64, beta)];
-                    for i in 0..n {
-                        x.push(if s[i] { 1.0 } else { -1.0 });
-                    }
-                    st.add(&x);
-                }
-            }
-            st.mean_err()
-        }));
-        n_runs += 1;
-        match r {
-            Err(_) => fail(prop, key, "generic sampler panicked during a long run".into(), ctx, &mut oracle_failures),
-            Ok(me) => {
-                let mut bad = vec![];
-                if let Some(m) = judge("energy", me[0].0, me[0].1, ex.energy, 0.02) {
-                    bad.push(m);
-                }
-                for i in 0..n {
-                    if let Some(m) = judge(&format!("<s_{}>", i), me[1 + i].0, me[1 + i].1, ex.mag[i], 0.02) {
-                        bad.push(m);
-                    }
-                }
-                if !bad.is_empty() {
-                    fail(prop, key, format!("generic sampler does not converge to the thermal state of its matrices: {}", bad.join("; ")), ctx, &mut oracle_failures);
-                }
+        for beta in [1.0, 0.5] {
+            let seed = rng.next();
+            if wanted(prop) {
+                generic_jobs.push(GenericJob { prop, key, spec: spec.clone(), beta, seed });
             }
         }
     }
     // ---------------- tempering (C05): every rung at its own thermal distribution, serial and rayon drivers
-    for (li, par) in [(0usize, false), (1, true), (2, false), (3, true)] {
-        let base = tiny_ising(&mut rng, 1 + li, if li >= 2 { 1.0 } else { 0.0 });
+    let mut ladder_jobs = vec![];
+    for li in 0..8usize {
+        let par = li % 2 == 1;
+        let base = tiny_ising(&mut rng, 1 + li, if li % 4 >= 2 { if li >= 4 { -1.0 } else { 1.0 } } else { 0.0 });
         let mut specs = vec![];
         let mut betas = vec![];
-        for (k, (bscale, jscale)) in [(0.5, 1.0), (1.0, 1.0), (1.0, 0.5), (1.0, 0.25)].iter().enumerate() {
+        for (k, (bscale, jscale, hscale)) in [(0.5, 1.0, 1.0), (1.0, 1.0, 1.0), (1.0, 0.5, 1.0), (1.0, 0.25, 0.5), (0.75, 0.25, 0.5)].iter().enumerate() {
             let mut s = base.clone();
             for e in s.edges.iter_mut() {
                 e.1 *= jscale;
             }
+            s.h *= hscale;
             s.cutoff = 1 + k;
-            s.hb = false;
+            s.hb = li >= 6;
             specs.push(s);
             betas.push(*bscale);
         }
-        if li % 2 == 1 {
-            specs.truncate(3);
-            betas.truncate(3);
+        let keep = [4, 3, 5, 2, 3, 5, 4, 3][li];
+        specs.truncate(keep);
+        betas.truncate(keep);
+        let seeds: Vec<u64> = (0..=keep).map(|_| rng.next()).collect();
+        if wanted("C05") {
+            ladder_jobs.push(LadderJob { li, par, specs, betas, seeds });
         }
-        let ctx = json!({"driver": if par {"rayon"} else {"serial"}, "betas": betas, "edges": specs.iter().map(|s| s.edges.clone()).collect::<Vec<_>>(),
-            "gamma": base.gamma, "h": base.h, "swap_period": 1 + li, "sampling_period": 1 + (li % 2)});
-        let nrep = specs.len();
-        let n = base.nvars;
-        let r = catch_unwind(AssertUnwindSafe(|| {
-            let mut tc: crate::c10::TC = TemperingContainer::new(TapeRng::new(rng.next()));
-            for (s, b) in specs.iter().zip(betas.iter()) {
-                let mut g = s.build(TapeRng::new(rng.next()));
-                g.rng_logging_off();
-                tc.add_qmc_stepper(g, *b).unwrap();
-            }
-            tc.rng_mut().logging = false;
-            tc.timesteps(warm);
-            let mut stats: Vec<Stats> = (0..nrep).map(|_| Stats::new(1 + n * n, nsteps / 10)).collect();
-            // chunks of 10 steps through the measuring driver
-            let mut t = 0;
-            while t < nsteps {
-                let res = if par { tc.parallel_timesteps_sample(10, 1 + li, 1 + (li % 2)) } else { tc.timesteps_sample(10, 1 + li, 1 + (li % 2)) };
-                for (i, (states, e)) in res.iter().enumerate() {
-                    let mut x = vec![*e];
-                    let mut zz = vec![0.0; n * n];
-                    for s in states {
-                        for a in 0..n {
-                            for b in 0..n {
-                                zz[a * n + b] += if s[a] == s[b] { 1.0 } else { -1.0 };
-                            }
-                        }
-                    }
-                    x.extend(zz.iter().map(|v| v / states.len() as f64));
-                    stats[i].add(&x);
-                }
-                t += 10;
-            }
-            stats.iter().map(|s| s.mean_err()).collect::<Vec<_>>()
-        }));
-        n_runs += 1;
-        match r {
-            Err(_) => fail("C05", None, "tempering run panicked".into(), ctx, &mut oracle_failures),
-            Ok(all) => {
-                let mut bad = vec![];
-                for (i, me) in all.iter().enumerate() {
-                    let ex = exact_from_h(&ising_h(&specs[i]), n, betas[i]);
-                    if let Some(m) = judge(&format!("rung {} energy", i), me[0].0, me[0].1, ex.energy, 0.03) {
-                        bad.push(m);
-                    }
-                    for a in 0..n {
-                        for b in (a + 1)..n {
-                            if let Some(m) = judge(&format!("rung {} <s_{} s_{}>", i, a, b), me[1 + a * n + b].0, me[1 + a * n + b].1, ex.zz[a][b], 0.03) {
-                                bad.push(m);
-                            }
-                        }
-                    }
-                }
-                if !bad.is_empty() {
-                    fail("C05", None, format!("a ladder position does not sample its own thermal distribution: {}", bad.join("; ")), ctx, &mut oracle_failures);
-                }
+    }
+    let mut outcomes: Vec<Outcome> = ising_jobs.par_iter().map(|j| confirmed(|n, x| run_ising_job(j, n, x), nsteps)).collect();
+    outcomes.extend(generic_jobs.par_iter().map(|j| confirmed(|n, x| run_generic_job(j, n, x), nsteps)).collect::<Vec<_>>());
+    outcomes.extend(ladder_jobs.par_iter().map(|j| confirmed(|n, x| run_ladder_job(j, n, x), nsteps)).collect::<Vec<_>>());
+    let n_runs = outcomes.len();
+    let mut oracle_failures = vec![];
+    let mut samples = vec![];
+    for o in outcomes {
+        oracle_failures.extend(o.failures);
+        if let Some(s) = o.sample {
+            if samples.len() < 12 {
+                samples.push(s);
             }
         }
     }
     json!({"files": [], "evaluations": n_runs, "distinct_nontrivial": n_runs, "steps_per_run": nsteps,
+        "ising_runs": ising_jobs.len(), "generic_runs": generic_jobs.len(), "tempering_ladders": ladder_jobs.len(),
         "oracle_failures": oracle_failures, "samples": samples,
-        "rule": "long runs (40k steps quick, 400k thorough, 10% warm-up, 20 bins) of the real samplers on 2-3 spin models (frustrated triangle, multi-edge, unequal |J|, h = 0 / + / -, initial cutoffs 1..6) with the default pipeline, heat bath, automatic and explicit RVB, generic interaction sets (exchange + loops, symmetric diagonal + constant terms, a 3-variable diagonal term with heat bath) and tempering ladders (serial and rayon), compared with dense exact diagonalisation: energy, magnetisations, correlations, mean operator count per bond; tolerance 6 sigma + 0.02"})
+        "rule": "long runs (48k steps quick, 480k thorough, 10% warm-up, 20 bins) of the real samplers on 2-3 spin models (chain with mixed signs, frustrated triangles, multi-edge, unequal |J|; each with h = 0 / + / -; initial cutoffs 1..6; beta 0.5 / 1) with the default pipeline, heat bath, automatic and explicit RVB; generic interaction sets (exchange + loops, symmetric diagonal + constant terms with clusters, 3-variable diagonal terms, mixed arities, heat bath on/off; beta 0.5 / 1); tempering ladders of 2-5 replicas (beta, coupling and field ladders, serial and rayon, swap periods 1-3, heat bath on two ladders); compared with dense exact diagonalisation: energy, magnetisations, correlations, mean operator count per bond; tolerance 6 sigma + 0.02; a statistical failure is reported only when a second, 4x longer run from another seed fails too"})
 }
